@@ -2,7 +2,10 @@
 
 package service
 
-import "com.tuntun.rangers/node/src/common"
+import (
+	"com.tuntun.rangers/node/src/common"
+	"com.tuntun.rangers/node/src/middleware/db"
+)
 
 // verif hook H7: scheduling gate for the transaction pool. A verification
 // harness installs VerifGate to pause a goroutine at a named point inside a
@@ -15,5 +18,14 @@ var VerifGate func(point string, hash common.Hash)
 func verifGate(point string, hash common.Hash) {
 	if f := VerifGate; f != nil {
 		f(point, hash)
+	}
+}
+
+// VerifWrapExecutedStore puts wrap(store) in place of the pool's executed
+// store, so that a harness can hold a lock-free lookup between its store read
+// and its return.
+func VerifWrapExecutedStore(wrap func(db.Database) db.Database) {
+	if p, ok := GetTransactionPool().(*TxPool); ok && p != nil {
+		p.executed = wrap(p.executed)
 	}
 }
